@@ -66,6 +66,11 @@ inductive Instr where
   | setAttrConst (t : Var) (a : Attr) (c : Int)
   /-- `t.a = slot` -/
   | setAttrSlot (t : Var) (a : Attr) (slot : Nat)
+  /-- `t.a <op>= …` : in-place update of the *object attached as attribute `a`* (`grid.scale(m)`,
+      `input_stokes_vector *= …`); nothing happens to the field arrays -/
+  | inplaceAttr (op : Nat) (t : Var) (a : Attr)
+  /-- `t.a = t.a.copy()` : a fresh object with the same contents (`grid.scaled(m)` starts with this) -/
+  | copyAttr (t : Var) (a : Attr)
   deriving Repr
 
 structure Prog where
@@ -140,6 +145,8 @@ def step (sem : Nat → List Int → Int) (c : St) : Instr → St
   | .setAttrSlot t a slot =>
     { c with objs := upd c.objs (c.env t) ((c.objs (c.env t)).set a (c.slots slot)),
              writes := if c.env t = 0 then a :: c.writes else c.writes }
+  | .inplaceAttr _ _ _ => c
+  | .copyAttr _ _ => c
 
 def exec (sem : Nat → List Int → Int) (c : St) (p : List Instr) : St := p.foldl (step sem) c
 
@@ -191,6 +198,8 @@ def checkStep (A : Abs) : Instr → Option Abs
             (if A.slots slot = some a then { A with dirty := A.dirty.filter (· ≠ a) }
              else { A with dirty := a :: A.dirty })
           else A)
+  | .inplaceAttr _ _ _ => some A
+  | .copyAttr _ _ => some A
 
 def check : List Instr → Abs → Option Abs
   | [], A => some A
@@ -206,6 +215,69 @@ def safe (p : Prog) : Bool :=
   | some A => A.dirty.isEmpty
   | none => false
 
+
+/-! ## The objects attached to a wavefront: grid and Stokes vector as heap objects
+
+The grid (`wavefront.electric_field.grid`, with its cached weights) and the Stokes vector are mutable
+Python objects of their own; several wavefronts may point to the same one.  Field arrays, grid
+objects and Stokes vectors never overlap, so the store is the product of three heaps with the same
+shape — *wavefront object → pointer → contents* — and the meaning of an instruction on the heap of
+attribute `a` is again a list of instructions of the same language (`viewInstr`):
+
+* `wavefront.copy()` (`copy.deepcopy`) copies the Stokes vector (a `copy` on that heap) but **not the
+  grid**: the field is an `ndarray` subclass, `ndarray.__deepcopy__` copies the data and
+  `Field.__array_finalize__` hands the *same* grid object to the copy (a `wrap` on the grid heap);
+* `Wavefront(s.electric_field, …, s.input_stokes_vector)` and `Wavefront(Field(new, like.grid), …)`
+  point to the **same grid object** as `s` / `like` (a `wrap` on the grid heap) and to a **copy** of
+  the Stokes vector (`np.array(input_stokes_vector)` in `Wavefront.__init__`: a `copy` on that heap);
+* `t.a <op>= …` (`inplaceAttr`) is an in-place update on the heap of `a`; `t.a = t.a.copy()`
+  (`copyAttr`) and `t.a = <new object>` (`setAttrConst`) re-point `t` to a fresh cell;
+* saving / restoring the pointer itself (`saveAttr`/`setAttrSlot` on `a`) is not supported on the heap
+  of `a` (no shipped element does it): the program then has no view and is not accepted.
+
+`safeAttr a p` runs the *same* checker on the view, so `safe_sound` applies verbatim:
+`safe_sound_attr` (Properties/C06.lean): the contents of the grid / Stokes vector the caller passed
+in are what they were. -/
+
+def viewInstr (a : Attr) : Instr → Option (List Instr)
+  | .copy d s => some [if a = .grid then .wrap d s else .copy d s]
+  | .wrap d s => some [if a = .grid then .wrap d s else .copy d s]
+  | .newFrom d _ _ like => some [if a = .grid then .wrap d like else .copy d like]
+  | .bind d s => some [.bind d s]
+  | .inplace _ _ _ => some []
+  | .setFieldNew _ _ _ => some []
+  | .saveAttr _ _ b => if b = a then none else some []
+  | .setAttrConst t b _ => if b = a then some [.setFieldNew t 0 []] else some []
+  | .setAttrSlot _ b _ => if b = a then none else some []
+  | .inplaceAttr op t b => if b = a then some [.inplace op t []] else some []
+  | .copyAttr t b => if b = a then some [.setFieldNew t 0 [t]] else some []
+
+def viewProg (a : Attr) (p : Prog) : Option Prog :=
+  match p.body.mapM (viewInstr a) with
+  | some l => some ⟨l.flatten, p.ret⟩
+  | none => none
+
+/-- the checker's verdict on what `p` does to the objects attached as attribute `a` -/
+def safeAttr (a : Attr) (p : Prog) : Bool :=
+  match viewProg a p with
+  | some q => safe q
+  | none => false
+
+/-- field arrays, grid objects and Stokes vectors -/
+def safeAll (p : Prog) : Bool := safe p && safeAttr .grid p && safeAttr .stokes p
+
+/-- Contents, after the call, of the object that was attached to the input as attribute `a` and held
+`g` before (`none`: the program has no view). -/
+def attrContentsAfter (sem : Nat → List Int → Int) (a : Attr) (p : Prog) (v : InVal) (g : Int) : Option Int :=
+  match viewProg a p with
+  | some q => some (call sem q { v with field := g }).inputField
+  | none => none
+
+/-- does the returned wavefront point to the very object attached to the input as attribute `a`? -/
+def retSharesAttr (sem : Nat → List Int → Int) (a : Attr) (p : Prog) (v : InVal) : Option Bool :=
+  match viewProg a p with
+  | some q => some (call sem q v).retSharesBuf
+  | none => none
 
 /-! # Element-internal cells
 
